@@ -164,22 +164,23 @@ HERM_SPECTRA = ("gapped", "degen", "neardeg", "symm", "psd", "singular")
 def _clam(d):
     """prescribed complex spectrum: distinct moduli, real and imaginary parts.
     Beyond d = 32 (only met by the auto-selection cells, which ask ARPACK for
-    the LM / LR end) a bulk plus four well separated outliers, so that the
-    requested end of the spectrum is a >= 10x-margin decision for a Krylov
-    solver (a dense spiral has moduli 0.5% apart at its end)."""
+    the LM / LR / SR end) a bulk plus eight well separated outliers (four on
+    each side), so that the requested end of the spectrum is a >= 10x-margin
+    decision for a Krylov solver (a dense spiral has moduli 0.5% apart at its
+    end)."""
     j = np.arange(d)
     if d <= 32:
         return (0.4 + 0.35 * j) * np.exp(2j * np.pi * (0.17 + 0.381966 * j))
-    nb = d - 4
+    nb = d - 8
     jb = np.arange(nb)
     bulk = (0.4 + 1.6 * jb / nb) * np.exp(2j * np.pi * (0.17 + 0.381966 * jb))
-    out = np.array([7.0 * np.exp(0.5j), 6.1 * np.exp(-0.6j), 5.3 * np.exp(0.8j), 4.6 * np.exp(-0.3j)])
+    out = np.array([7.0 * np.exp(0.5j), 6.1 * np.exp(-0.6j), 5.3 * np.exp(0.8j), 4.6 * np.exp(-0.3j), -6.55 + 1.0j, -5.45 - 1.5j, -4.4 + 2.1j, -3.5 - 0.6j])
     return np.concatenate([bulk, out])
 
 
 def _rlam(d):
     """spectrum of a real non-symmetric matrix: conjugate pairs (+ one real);
-    beyond d = 32 a bulk plus three well separated outlier pairs (see _clam)."""
+    beyond d = 32 a bulk plus five well separated outlier pairs (see _clam)."""
     out = []
     npair = d // 2
     if d <= 32:
@@ -187,10 +188,10 @@ def _rlam(d):
             a, b = -1.2 + 0.55 * j, 0.3 + 0.25 * j
             out += [a + 1j * b, a - 1j * b]
     else:
-        for j in range(npair - 3):
+        for j in range(npair - 5):
             a, b = -1.0 + 2.0 * ((0.618034 * j) % 1.0), 0.2 + 1.3 * j / npair
             out += [a + 1j * b, a - 1j * b]
-        for a, b in ((2.8, 0.5), (4.0, 1.0), (5.5, 2.0)):
+        for a, b in ((2.8, 0.5), (4.0, 1.0), (5.5, 2.0), (-3.2, 0.8), (-4.6, 1.6)):
             out += [a + 1j * b, a - 1j * b]
     if d % 2:
         out.append(0.77)
